@@ -1,13 +1,9 @@
 package hamt
 
 import (
-	"fmt"
-
 	"github.com/ipfs/go-unixfsnode/internal/verifrt"
+	dagpb "github.com/ipld/go-codec-dagpb"
 )
-
-// padWidth is the spec of the prefix width: number of hex digits of fanout-1.
-func specPadWidth(lg int) int { return (lg + 3) / 4 }
 
 // VerifCheckLogTwo: checkLogTwo accepts exactly the positive powers of two.
 func VerifCheckLogTwo() {
@@ -25,4 +21,61 @@ func VerifMkmask() {
 	verifrt.Reach("end")
 }
 
-var _ = fmt.Sprintf
+// strEqSpec: independent equality of two strings.
+func strEqSpec(a, b string) bool {
+	if len(a) != len(b) {
+		return false
+	}
+	eq := true
+	for i := 0; i < len(a); i++ {
+		eq = verifrt.And(eq, a[i] == b[i])
+	}
+	return eq
+}
+
+// VerifMatchKey (K3): for every prefix width 1..3, every link name of pad..pad+3
+// arbitrary bytes and every key of 0..3 arbitrary bytes, MatchKey holds exactly
+// when the name without its prefix IS the key (not a suffix, not a prefix of it).
+func VerifMatchKey() {
+	pad := 1 + verifrt.Choose(3)
+	name := verifrt.String(pad + verifrt.Choose(4))
+	key := verifrt.String(verifrt.Choose(4))
+	l := linkNamed(true, name)
+	got := MatchKey(l, key, pad)
+	verifrt.Assert(got == strEqSpec(name[pad:], key), "matchkey=exact-suffix-equality")
+	verifrt.Reach("end")
+}
+
+// VerifIsValueLink (K3): classification of a link by its name length.
+func VerifIsValueLink() {
+	pad := 1 + verifrt.Choose(3)
+	hasName := verifrt.Choose(2) == 1
+	name := verifrt.String(verifrt.Choose(pad + 3))
+	l := linkNamed(hasName, name)
+	var isVal bool
+	var err error
+	panicked, _ := verifrt.Catch(func() { isVal, err = isValueLink(l, pad) })
+	verifrt.Assert(!panicked, "isvaluelink:no-panic")
+	switch {
+	case !hasName:
+		verifrt.Assert(!isVal && err == ErrMissingLinkName, "isvaluelink:missing-name")
+	case len(name) < pad:
+		_, bad := err.(ErrInvalidLinkName)
+		verifrt.Assert(!isVal && bad, "isvaluelink:short-name-rejected")
+	case len(name) == pad:
+		verifrt.Assert(!isVal && err == nil, "isvaluelink:prefix-only-is-shard-link")
+	default:
+		verifrt.Assert(isVal && err == nil, "isvaluelink:longer-is-value-link")
+	}
+	verifrt.Reach("end")
+}
+
+// VerifTransformName (K3): stripping the prefix returns exactly the rest.
+func VerifTransformName() {
+	pad := 1 + verifrt.Choose(3)
+	name := verifrt.String(pad + verifrt.Choose(3))
+	s, _ := dagpb.Type.String.FromString(name)
+	out := stringTransformer{maxPadLen: pad}.transformNameNode(s)
+	verifrt.Assert(out != nil && strEqSpec(out.String(), name[pad:]), "transform=strip-prefix")
+	verifrt.Reach("end")
+}
